@@ -1283,6 +1283,57 @@ func c05StaleBest(hole, lo1, lo2 uint8, buf []uint64) string {
 	return c05ShrinkExplicit(buf, prop)
 }
 
+// two failure sites inside one small leaf function that the compiler inlines (an index out of range for v >= 1000, a division by
+// zero for v == 1): the frames of an inlined function are part of where a failure happened — random values find the first
+// site, v == 1 lies on the way of the minimizer, and the minimized test case must still fail at the site that was found
+var (
+	c05Site int
+	c05Tbl  [1000]int
+)
+
+func c05Leaf(v int) int {
+	c05Site = 1
+	x := c05Tbl[v]
+	c05Site = 2
+	return x / (v - 1)
+}
+
+func c05InlinedSites(seed uint64) string {
+	prop := func(t *rapid.T) {
+		v := rapid.IntRange(0, 3000).Draw(t, "v")
+		c05Site = 0
+		_ = c05Leaf(v)
+	}
+	var res rapid.VerifDoCheckResult
+	if p := runTB(func() { res = rapid.VerifDoCheck(newRecTB("inl"), farDeadline(), 100, seed, "", false, prop) }); p != nil {
+		return fmt.Sprintf("doCheck crashed: %v", p)
+	}
+	if res.Err1.IsNil() && res.Err2.IsNil() {
+		return ""
+	}
+	// the failure that was found: the failing seed on a fresh T
+	runTB(func() {
+		rapid.VerifCheckOnce(rapid.VerifNewT(newRecTB("inl"), rapid.VerifRandStream(res.Seed, false), false), prop)
+	})
+	found := c05Site
+	runTB(func() {
+		rapid.VerifCheckOnce(rapid.VerifNewT(newRecTB("inl"), rapid.VerifBufStream(res.Buf, false), false), prop)
+	})
+	final := c05Site
+	if found != final && res.Err1.Traceback() == res.Err2.Traceback() {
+		return fmt.Sprintf("the failure found is at statement %d of an inlined helper (%s), the minimized test case [%s] fails at statement %d (%s) and is reported as the same failure",
+			found, firstLine(res.Err1.Msg()), joinU64(res.Buf), final, firstLine(res.Err2.Msg()))
+	}
+	return ""
+}
+
+func firstLine(s string) string {
+	if k := strings.IndexByte(s, '\n'); k >= 0 {
+		return s[:k]
+	}
+	return s
+}
+
 // minimize the failure of prop on buf with the real `shrink`: no crash, not larger, the result replays to the reported
 // failure and is its own recording
 func c05ShrinkExplicit(buf []uint64, prop0 func(*rapid.T)) string {
@@ -2166,6 +2217,15 @@ func init() {
 				}
 			}
 		}
+		// two failure sites that differ in the frames of an inlined function only
+		for k := 0; k < 4*scale; k++ {
+			seed := r.u64() | 1
+			m.tag("inlined-sites")
+			m.eval(fmt.Sprint("inlined", seed), true)
+			if what := c05InlinedSites(seed); what != "" {
+				m.violate(violation{"C05", "inlined", what, map[string]string{"seed": fmt.Sprint(seed)}})
+			}
+		}
 		// seven-word standalone groups that are not floats and get shorter when the float pass lowers one of their words
 		for _, k := range []int{4, 5, 6} {
 			for _, pre := range []int{0, 2} {
@@ -2195,6 +2255,11 @@ func init() {
 	replayers["gotest"] = func(v violation, tmp string) (bool, string) {
 		what, ran := c09GoTest(tmp)
 		return ran && what != "", what
+	}
+	replayers["inlined"] = func(v violation, tmp string) (bool, string) {
+		seed, _ := strconv.ParseUint(v.Params["seed"], 10, 64)
+		what := c05InlinedSites(seed)
+		return what != "", what
 	}
 	replayers["stale"] = func(v violation, tmp string) (bool, string) {
 		what := c05StaleBest(uint8(atoiS(v.Params["hole"])), uint8(atoiS(v.Params["lo1"])), uint8(atoiS(v.Params["lo2"])), parseWordsGo(v.Params["words"]))
